@@ -179,6 +179,14 @@ func (in *Interp) dispatch(s *State, th *Thread, f *Frame, c *callee, at ssa.Ins
 		return nil
 	}
 	if fn.Pkg != nil && in.isBlackhole(fn.Pkg.Pkg.Path()) {
+		switch name {
+		case "github.com/ozontech/seq-db/logger.Panic":
+			panic(goPanic{msg: "logger.Panic(" + in.show(c.args[0]) + ") at " + in.pos(at)})
+		case "github.com/ozontech/seq-db/logger.Fatal":
+			s.status = Fatal
+			s.msg = "logger.Fatal(" + in.show(c.args[0]) + ") at " + in.pos(at)
+			return nil
+		}
 		if h, ok := blackholeSpecial[name]; ok {
 			h(in, s, c.args)
 		}
